@@ -1207,3 +1207,32 @@ Theorem dead_only_after_peer_close ls s g : run true init ls = Some s -> Forall 
 Proof.
   intros R F D. destruct (Inv4_run ls init s InvX_init Inv4_init F R) as (_ & J2 & J3 & _). split; auto.
 Qed.
+
+(* ------------------------------------------------------------------------------------------------ *)
+(* failed dial (endpoint down): the client stays closed, so the next call dials again *)
+Theorem failed_dial_leaves_closed s s' : step true s LReconnectFail = Some s' -> s' = s /\ closedF s' = true.
+Proof. cbn. destruct (closedF s) eqn:C; [|discriminate]. intros [= <-]. auto. Qed.
+
+Theorem call_after_failed_dial ls s s1 m s2 : run true init ls = Some s -> step true s LReconnectFail = Some s1 ->
+  run true s1 [LReconnect; LEnq m] = Some s2 ->
+  cur s2 = Some (ngen s) /\ closedF s2 = false /\
+  exists s', reach_int s2 s' /\ cur s' = Some (ngen s) /\ dead (gens s' (ngen s)) = false /\ In m (got (gens s' (ngen s))).
+Proof.
+  intros R F R2. destruct (failed_dial_leaves_closed _ _ F) as [-> C]. eapply call_after_known_close; eauto.
+Qed.
+
+(* the seeded variant C11-m3 (flag cleared before the dial): after the server closed the connection and one dial
+   failed, the next call does not dial: its request sits in the send queue, the flag says open, there is no
+   connection and every goroutine of the client has left *)
+Definition sched_down : list label := [LReconnect; LLogPClose 0; LPeerClose 0; LRClose 0; LRSignal 0; LSTop 0].
+
+Lemma m3_refuted : exists s0 s2, run true init sched_down = Some s0 /\ closedF s0 = true /\
+  run true (dial_fail_m3 s0) [LReconnect; LLogEnq 1; LEnq 1] = Some s2 /\
+  closedF s2 = false /\ cur s2 = None /\ ngen s2 = 1 /\ sendQ s2 = [1] /\
+  sp (gens s2 0) = SExit /\ rp (gens s2 0) = RExit /\ got (gens s2 0) = [].
+Proof. eexists. eexists. split; [vm_compute; reflexivity|]. split; [reflexivity|]. split; [vm_compute; reflexivity|]. cbn. repeat split. Qed.
+
+Lemma failed_dial_example : exists s0 s1 s2, run true init sched_down = Some s0 /\ step true s0 LReconnectFail = Some s1 /\
+  run true s1 [LReconnect; LLogEnq 1; LEnq 1; LSTop 1; LSPoll 1; LSBlkQueue 1; LSCheck 1; LSHook 1; LSWriteOk 1] = Some s2 /\
+  cur s2 = Some 1 /\ got (gens s2 1) = [1] /\ c11_accepts (log s2) = true.
+Proof. eexists. eexists. eexists. split; [vm_compute; reflexivity|]. split; [vm_compute; reflexivity|]. split; [vm_compute; reflexivity|]. vm_compute. repeat split. Qed.
